@@ -47,3 +47,55 @@ Qed.
 (* every strand belongs to one chain and strands follow the chain changes of the nucleotide list *)
 Theorem strands_length_total : forall fg rs, length (concat (map snd (strands fg rs))) = length (letters (numbering fg rs)).
 Proof. intros. rewrite strands_concat. reflexivity. Qed.
+
+(* ---------------------------------------------------------------- the per-strand structure text *)
+Lemma firstn_add : forall (A : Type) n m (l : list A), firstn (n + m) l = firstn n l ++ firstn m (skipn n l).
+Proof. intros A. induction n as [|n IH]; intros m l; [reflexivity|]. destruct l as [|x l]; [cbn; rewrite firstn_nil; reflexivity|]. cbn. rewrite IH. reflexivity. Qed.
+
+Lemma split_lengths_concat : forall (A : Type) lens (l : list A), concat (split_lengths l lens) = firstn (list_sum lens) l.
+Proof.
+  intros A. induction lens as [|n t IH]; intros l; [reflexivity|]. cbn [split_lengths concat]. rewrite IH.
+  change (list_sum (n :: t)) with (n + list_sum t). symmetry. apply firstn_add.
+Qed.
+
+Lemma split_lengths_lengths : forall (A : Type) lens (l : list A), list_sum lens <= length l ->
+    map (@length A) (split_lengths l lens) = lens.
+Proof.
+  intros A. induction lens as [|n t IH]; intros l H; [reflexivity|]. change (list_sum (n :: t)) with (n + list_sum t) in H. cbn [split_lengths map].
+  rewrite firstn_length_le by lia. f_equal. apply IH. rewrite skipn_length. lia.
+Qed.
+
+Lemma list_sum_lengths : forall (l : list (list ascii)), list_sum (map (@length ascii) l) = length (concat l).
+Proof. induction l as [|x l IH]; [reflexivity|]. cbn [map concat]. change (list_sum (length x :: map (@length ascii) l)) with (length x + list_sum (map (@length ascii) l)). rewrite app_length, IH. reflexivity. Qed.
+
+Lemma texts_gen : forall (ss : list (str * str)) (ps : list str), length ps = length ss ->
+    map (fun x : str * str * str => (fst (fst x), snd (fst x))) (map (fun x : (str * str) * str => (fst (fst x), snd (fst x), snd x)) (combine ss ps)) = ss /\
+    map snd (map (fun x : (str * str) * str => (fst (fst x), snd (fst x), snd x)) (combine ss ps)) = ps.
+Proof.
+  induction ss as [|s ss IH]; intros [|p ps] H; try discriminate; [split; reflexivity|].
+  cbn in H. destruct (IH ps) as [A B]; [lia|]. cbn [combine map fst snd]. split; [f_equal; [destruct s; reflexivity|exact A]|f_equal; exact B].
+Qed.
+
+(* for every dot-bracket string db as long as the numbering (what C01 proves of every encoder): the strand texts carry the
+   strands' names and sequences, their structure pieces are as long as the sequences and concatenate to db *)
+Theorem strand_texts_spec : forall fg rs db, length db = length (letters (numbering fg rs)) ->
+    map (fun x => (fst (fst x), snd (fst x))) (strand_texts fg rs db) = strands fg rs /\
+    concat (map snd (strand_texts fg rs db)) = db /\
+    Forall (fun x => length (snd x) = length (snd (fst x))) (strand_texts fg rs db).
+Proof.
+  intros fg rs db Hlen. unfold strand_texts. set (ss := strands fg rs). set (lens := map (fun s => length (snd s)) ss).
+  assert (Hsum : list_sum lens = length db).
+  { unfold lens. rewrite <- (map_map snd (@length ascii)), list_sum_lengths. unfold ss. rewrite strands_concat. symmetry. exact Hlen. }
+  assert (Hl : map (@length ascii) (split_lengths db lens) = lens) by (apply split_lengths_lengths; lia).
+  assert (Hn : length (split_lengths db lens) = length ss).
+  { rewrite <- (map_length (@length ascii)), Hl. unfold lens. apply map_length. }
+  destruct (texts_gen ss (split_lengths db lens) Hn) as [T1 T2].
+  split; [exact T1|]. split.
+  - etransitivity; [apply (f_equal (@concat ascii)); exact T2|]. rewrite split_lengths_concat, Hsum. apply firstn_all.
+  - apply Forall_forall. intros x Hx. apply in_map_iff in Hx. destruct Hx as ([s p] & <- & Hin). cbn [fst snd].
+    assert (G : forall (sl : list (str * str)) ps, map (@length ascii) ps = map (fun s => length (snd s)) sl ->
+                forall s p, In (s, p) (combine sl ps) -> length p = length (snd s)).
+    { clear. induction sl as [|s0 sl IH]; intros [|p0 ps] H s p Hin; try discriminate; [destruct Hin|].
+      cbn in H. injection H as H0 H1. destruct Hin as [E|Hin]; [injection E as <- <-; exact H0|]. apply (IH ps H1 s p Hin). }
+    apply (G ss (split_lengths db lens) Hl s p Hin).
+Qed.
